@@ -46,6 +46,33 @@ Definition compose_udp6 (b : slice) (smac dmac : bytes) (hop : N) (sip dip : byt
    ether_set_payload e1 (len ip2))%res.
 
 (* ---------------------------------------------------------------- *)
+(* A small IPv4 packet built in its own exact-size buffer and then handed to Ether.AppendPayload,
+   which pads the frame to the 60-byte minimum: the Ethernet payload then carries bytes beyond
+   the inner length fields, and the inner layers must be found through TotalLen / UDP length. *)
+Definition IPPROTO_ICMP : N := 1.
+
+Definition packet_udp4 (ttl : N) (sip dip : bytes) (sp dp : N) (data : bytes) : res slice :=
+  let n := (28 + List.length data)%nat in
+  (ip <- encode_ip4 (mkSlice (repeat 0 n) n) ttl sip dip ;;
+   ipl <- ip4_payload ip ;;
+   u <- encode_udp ipl sp dp ;;
+   u <- udp_append u data ;;
+   ip4_set_payload (writeback ip (arr u)) (len u) IPPROTO_UDP)%res.
+
+Definition packet_echo4 (ttl : N) (sip dip : bytes) (t code id sq : N) (data : bytes) : res slice :=
+  let n := (28 + List.length data)%nat in
+  (ip <- encode_ip4 (mkSlice (repeat 0 n) n) ttl sip dip ;;
+   ipl <- ip4_payload ip ;;
+   ec <- encode_icmp_echo ipl t code id sq data ;;
+   ip4_set_payload (writeback ip (arr ec)) (len ec) IPPROTO_ICMP)%res.
+
+(* ether := EncodeEther(b, ETH_P_IP, ..); ether.AppendPayload(packet) *)
+Definition ether_wrap4 (b : slice) (smac dmac : bytes) (pk : res slice) : res slice :=
+  (e <- encode_ether b ETH_P_IP smac dmac ;;
+   p <- pk ;;
+   ether_append e (view p) (cap p))%res.
+
+(* ---------------------------------------------------------------- *)
 (* Session.Parse on a frame whose EtherType is IPv4 or IPv6 and whose IP
    protocol is UDP: PayloadID and whether an error is returned.  Other
    EtherTypes / protocols are outside this fragment ([Err ENotFound]). *)
@@ -53,6 +80,7 @@ Definition PayloadEther : N := 1.
 Definition Payload8023 : N := 2.
 Definition PayloadIP4 : N := 4.
 Definition PayloadIP6 : N := 5.
+Definition PayloadICMP4 : N := 6.
 Definition PayloadUDP : N := 8.
 Definition PayloadDHCP4 : N := 10.
 Definition PayloadDHCP6 : N := 11.
@@ -104,7 +132,11 @@ Definition parse_class (f : slice) : res (N * bool) :=
       if negb v then Ok (PayloadIP4, true) else
       ihl <- ip4_ihl ip ;;
       pr <- ip4_protocol ip ;;
-      if pr =? IPPROTO_UDP then parse_udp_at f (hl + ihl) else Err ENotFound)
+      if pr =? IPPROTO_UDP then parse_udp_at f (hl + ihl)
+      else if pr =? IPPROTO_ICMP then
+        (* ICMP(frame.Payload()).IsValid(): at least 8 bytes, else the error is returned with PayloadIP4 *)
+        (ic <- slfrom f (hl + ihl) ;; Ok (if Nat.leb 8 (len ic) then (PayloadICMP4, false) else (PayloadIP4, true)))
+      else Err ENotFound)
    else if t =? ETH_P_IPV6 then
      (ip <- slfrom f hl ;;
       v <- ip6_is_valid ip ;;
